@@ -163,7 +163,7 @@ class Module:
 
     def state_params(self, env, entry):
         if entry.get('state') == 'record':
-            used = bool(env.used_comps) or entry.get('_calls_record')
+            used = bool(env.used_comps)
             return ([(self.record['var'], self.record['type'])] if used else []), []
         reads = [c for c in self.comp_order if c in env.used_comps]
         return [(self.comp_var(c), self.T.coq(self.comp_type(c), False)) for c in reads], reads
